@@ -29,6 +29,8 @@ CLAIMS = {
          "The S/S' statement itself is the corollary M-evo of DESIGN.md over these contracts, not mechanised."),
  "C10": ("proof", "History independence of the map reader is proved with ghost staleness: the scratch key MapCodec.Read takes from its sync.Pool is modelled as holding arbitrary left-over contents, abstract component Reads are not assumed to overwrite it, and the key handed to the runtime's mapassign is proved to have been cleared first (the defect found this way - omitted key fields inheriting the previous entry's value - was reproduced by a witness scenario on the real code and repaired by a fix: commit). Merge rules proved as frames: every leaf Read (bool, ints, floats, string, bytes, null.*, time) writes exactly its target bytes and nothing else; PointerWrapper.Read keeps an existing pointee and allocates only when nil; composite readers touch the heap only through their component codecs. Clearing of re-used slice elements and append-only semantics of the repeated-field form are not yet under contract.",
          "Partial coverage as stated."),
+ "C19": ("proof", "Sequential-history part only (the any-number-of-goroutines part quantifies over schedules and is not decided, see C07). With the intern table abstracted to the invariant I: every entry maps a key to a string with the same bytes - assumed for entries read (lookup, range) and proved for every entry written (the copy loop and the new entry in addString) - InternedStringCodec.Read is proved to store a string with exactly the bytes of the input and to consume len(data), for any table satisfying I, hence after any history; addString is proved to return such a string; everything written into a table is proved (region taint) not to be the caller's input bytes; the Omit/Size/Append/WireType of the interned codecs (plenccodec and null) are proved to be the plain string encoding; internedNullStringCodec.Read sets Valid.",
+         "Atomic publication, locking and immutability of published tables are outside the sequential model. Placement of one interner per tagged field (BuildStructCodec) is not yet under contract."),
  "C12": ("proof", "TimeCompatCodec.size/append/Size/Append are proved to produce Timestamp{seconds = field 1, nanos = field 2} with plain (non zig-zag) varints - two's complement for negative seconds - framed like every other length-delimited field, and Size to agree with Append; the tag constants used are proved to be established by package initialisation; ProtoMapCodec.Read and the repeated-field reader (readAsWTLength / ProtoSliceWrapper.Read) are proved total (C04). The repeated-field and per-entry map writers (ProtoSliceWrapper / ProtoMapCodec Size/Append) and the option switches in the dispatcher are not yet under contract.",
          "Partial coverage as stated; time.Time accessors (Unix, Nanosecond) are uninterpreted pure functions."),
  "C06": ("proof", "(*Plenc).Marshal is proved to return, on success, a slice at least as long as the destination buffer whose first len(buf) bytes are the buffer's (for every registered or built codec obeying the interface contract, every buffer and capacity, including values that encode to nothing - the omit branch defect found here was repaired by a fix: commit); every leaf Append is proved to be old(data) ++ a byte sequence that is a function of the value and the tag alone; plenc.Marshal is proved to forward to the default instance. By-value versus by-pointer equivalence is outside the engine's model of interface values and is not decided.",
